@@ -25,11 +25,13 @@ PROPS = {
 _CODEC_NOTE = ('Proved for all inputs (no bound): every integer / list-header / raw-bytes / nibble-packing writer of the encoder '
                'equals the reference encoding (spec/wabinary.py), every matching reader of the decoder equals the reference '
                'decoding, and the spec-level round-trip lemmas (rt_int8/16/20/31, rt_list_start, rt_pack, rt_packed) connect them. '
-               'Token/JID strings and the recursive tree functions (writeString, writeInternal, readString, nextTreeInternal, '
-               'readList, readAttributes) are NOT yet under discharged contracts: that level is decided by the bounded stand-in only.')
+               'Token dictionary lookups (TokenDictionary.getToken / getIndex against the two tables as sequences: every primary entry 0..235 '
+               'incl. the last, first match, secondary fall-back; ReadDecoder.getToken / getTokenDouble) are under discharged contracts '
+               '(contracts/C01_tokens.py).  JID strings and the recursive tree functions (writeString, writeJid, writeInternal, readString, '
+               'nextTreeInternal, readList, readAttributes) are NOT under discharged contracts: that level is decided by the bounded stand-in only.')
 
 PROPS['C01'] = {
-    'sidecars': ['contracts/C01_codec.py'],
+    'sidecars': ['contracts/C01_codec.py', 'contracts/C01_tokens.py'],
     'level': 'other',
     'explanation': _CODEC_NOTE + ' Bounded stand-in: real encoder -> real decoder on generated well-formed trees with strict comparison.',
     'native_checks': [{'name': 'c01_roundtrip', 'cmd': ['bounded/codec_check.py', 'c01'],
@@ -42,7 +44,7 @@ PROPS['C01'] = {
                  'tree level: bounded native round trip (labelled bounded)',
 }
 PROPS['C02'] = {
-    'sidecars': ['contracts/C01_codec.py'],
+    'sidecars': ['contracts/C01_codec.py', 'contracts/C01_tokens.py'],
     'level': 'other',
     'explanation': _CODEC_NOTE + ' Bounded stand-in: real encoder -> independent reference decoder; reference encoder with random choice '
                    'vectors -> real decoder; dictionary compared entry by entry with the reference copy; table facts.',
@@ -333,13 +335,14 @@ PROPS['C09'] = {
                    'symbolic stanza of the documented shape (scenarios): IncomingAck, OutgoingAck, Presence and the Iq base class return every '
                    'documented attribute unchanged and invent none (4 of ~115 classes; the proof pattern is per class and was not written for the '
                    'others in the time available).  Everything else is the bounded stand-in, which is NOT counted as proved: every '
-                   'entity class that has a fixture in the repository (53 of 115; the others are listed in the evidence) on the REAL classes '
+                   'entity class that has a fixture in the repository or a documented example in its docstring that the class itself parses '
+                   'and reproduces (68 of 115 classes; the others are listed in the evidence) on the REAL classes '
                    'and the REAL codec: documented stanza and value variations in the documented shape (each attribute position x each value of its '
                    'kind, then random combinations; kinds by attribute name: JIDs, ids, timestamps, counts, flags, free Latin-1 text, printable '
                    'blobs; list children repeated 1..4 times) -> entity -> stanza must reproduce the stanza (numbers by value), and the stanza of '
                    'every sendable class must survive WriteEncoder / ReadDecoder unchanged.',
     'native_checks': [{'name': 'c09_entities', 'role': 'stand-in', 'cmd': ['bounded/entity_check.py'],
-                       'bound': '53 fixture classes x (1 documented + single-position sweep over all attribute positions and kind values + 12 (quick) / '
+                       'bound': '53 fixture stanzas + 52 docstring shapes (68 classes) x (1 documented + single-position sweep over all attribute positions and kind values + 12 (quick) / '
                                 '300 (thorough) random variations); positions whose varied value the parser refuses are selectors of the shape and keep '
                                 'the documented value; binary blobs and protobuf payloads keep the documented value (C10); codec check for classes '
                                 'that are sent (name heuristic: not Incoming/Result/Success/Failure/Error/*Notification)'}],
